@@ -16,6 +16,7 @@ RULES = {
     "C05.R9": "qfallback dequantizes every QTensor in args and kwargs",
     "C05.R10": "re-quantizing handlers compute on dequantized values and re-quantize with the operand qtype and documented scale",
     "C05.R12": "scale positivity: a handler that rescales by a scalar preserves the sign of the scale whenever another handler works on raw payloads assuming a positive scale",
+    "C05.R13": "guard helpers mean what the rules assume: is_scalar = python number or plain 0-dim tensor; cannot_mm = grouped payload",
     "C05.R11": "rank beliefs (fixed-size unpacking of size()) are implied by the aten schema or an ndim guard",
 }
 
